@@ -43,6 +43,10 @@ def check(ctx):
     ctx.doc('R4', 'each TrajectoryMetricsStd method calls the same-named TrajectoryMetrics method on every part, forwards '
                   'its keyword parameters and labels mean and std with the base unit')
     ctx.floor('R1', 10, '10 metric methods')
+    ctx.doc('K1', '[C20.R1] the metric methods are served through weak_lru_cache: its cache must be keyed on weakref.ref(self) '
+                  '(an id()-keyed cache hands a dead object\'s result to a new object at the same address)')
+    from .C20 import check_decorator
+    check_decorator(ctx, 'K1')
     ctx.floor('R2', 8)
     ctx.floor('R4', 5)
     helpers = {'gemdat.utils.meanfreq', f'{TRAJ}.distances_from_base_position', f'{TRAJ}.center_of_mass', 'gemdat.trajectory._lengths',
